@@ -201,7 +201,9 @@ def run(model, col, tier):
                       f"the write shuffle's base indices are {ind}, not the identity over the size of the first operand", LOWER, vma)
             ok_loop = False
             for l in loops:
-                if _rt42(l.iter, env42) != f"enumerate({MASK})" or not (isinstance(l.target, ast.Tuple) and len(l.target.elts) == 2):
+                it_txt = _rt42(l.iter, env42)
+                started = it_txt in (f"enumerate({MASK}, start={VAL}.Type.Size)", f"enumerate({MASK}, {VAL}.Type.Size)")  # the counter already starts at size(old)
+                if (it_txt != f"enumerate({MASK})" and not started) or not (isinstance(l.target, ast.Tuple) and len(l.target.elts) == 2):
                     continue
                 i_, c_ = (unparse(e_) for e_ in l.target.elts)
                 for s_ in l.body:
@@ -210,7 +212,7 @@ def run(model, col, tier):
                         if isinstance(w_, ast.Name) and w_.id in env42:
                             w_ = env42[w_.id]
                         r_ = _rt42(s_.value, env42)
-                        if isinstance(w_, ast.Subscript) and _is_table(w_.value) and unparse(w_.slice) == c_ and r_ in (f"{VAL}.Type.Size + {i_}", f"{i_} + {VAL}.Type.Size"):
+                        if isinstance(w_, ast.Subscript) and _is_table(w_.value) and unparse(w_.slice) == c_ and (r_ in (f"{VAL}.Type.Size + {i_}", f"{i_} + {VAL}.Type.Size") or (started and r_ == i_)):
                             ok_loop = True
             if loops:
                 col.check(ok_loop, "R04.2", f"{LOWER}::v_MemberAccessExpression swizzle write mapping", "component i of the mask takes element size(old) + i of the concatenation",
